@@ -33,6 +33,7 @@ func (ix *idxEngine) intFacts(p *prover, v ssa.Value, t string, at ssa.Instructi
 			}
 		}
 	case *ssa.Call:
+		out = append(out, ix.resultNonNegFacts(p, v, t)...)
 		// documented postconditions of standard-library searches
 		if f := x.Call.StaticCallee(); f != nil && funcPkgPath(f) == "strings" || f != nil && funcPkgPath(f) == "bytes" {
 			switch f.Name() {
@@ -44,6 +45,8 @@ func (ix *idxEngine) intFacts(p *prover, v ssa.Value, t string, at ssa.Instructi
 					leq(linTerm(t), p.lenOf(x.Call.Args[0]), f.Name()+" returns an index within the string"))
 			}
 		}
+	case *ssa.Extract:
+		out = append(out, ix.resultNonNegFacts(p, v, t)...)
 	case *ssa.Phi:
 		if p.isLoopPhi(x) {
 			out = append(out, p.headerBoundInvariant(x, t)...)
@@ -473,6 +476,59 @@ func (p *prover) entryUpperBoundInvariant(x *ssa.Phi, t string) []constraint {
 		}
 	}
 	out := []constraint{inv(linTerm(t))}
+	p.relCache[key] = out
+	return out
+}
+
+// resultNonNegFacts: v is an integer result of a module function. If every return of the callee yields a value
+// proved >= 0 under the assumption that its integer parameters are >= 0, and each integer argument is proved >= 0
+// at the call, then v >= 0.
+func (ix *idxEngine) resultNonNegFacts(p *prover, v ssa.Value, t string) []constraint {
+	var call *ssa.Call
+	k := 0
+	switch x := v.(type) {
+	case *ssa.Extract:
+		call, _ = x.Tuple.(*ssa.Call)
+		k = x.Index
+	case *ssa.Call:
+		call = x
+	}
+	if call == nil || !isIntType(v.Type()) {
+		return nil
+	}
+	callee := call.Call.StaticCallee()
+	if callee == nil || !inModule(callee) || callee.Blocks == nil || callee == p.fn || len(call.Call.Args) != len(callee.Params) {
+		return nil
+	}
+	key := "resnn:" + t
+	if c, ok := p.relCache[key]; ok {
+		return c
+	}
+	p.relCache[key] = nil
+	pc := ix.proverFor(callee)
+	var hyp []constraint
+	var intParams []int
+	for i, par := range callee.Params {
+		if isIntType(par.Type()) {
+			hyp = append(hyp, leq(linConst(0), linTerm(pc.canon(par)), "assumed of the argument"))
+			intParams = append(intParams, i)
+		}
+	}
+	for _, ret := range returnsOf(callee) {
+		rv := results(ret)
+		if k >= len(rv) {
+			return nil
+		}
+		if ok, _ := pc.prove(leq(linConst(0), pc.linOf(rv[k]), "result >= 0"), ret, hyp, 1); !ok {
+			return nil
+		}
+	}
+	for _, i := range intParams {
+		if ok, _ := p.prove(leq(linConst(0), p.linOf(call.Call.Args[i]), "argument >= 0"), call, nil, 2); !ok {
+			return nil
+		}
+	}
+	out := []constraint{leq(linConst(0), linTerm(t), "every return of "+FuncName(callee)+" is >= 0 for non-negative arguments, and the arguments here are")}
 	p.relCache[key] = out
 	return out
 }
